@@ -129,5 +129,103 @@ fn lps(pattern: &[u8]) -> (res: Lps)
 
     lps
 }
+
+pub struct KMP<'a> {
+    m: usize,
+    lps: Lps,
+    pattern: TextSlice<'a>,
+}
+
+/// q is the length of the longest prefix of p that is a suffix of s
+pub open spec fn sigma(p: Seq<u8>, s: Seq<u8>, q: int) -> bool {
+    pre_suf(p, s, q) && forall|k: int| #[trigger] pre_suf(p, s, k) ==> k <= q
+}
+/// a prefix-suffix of w = p[0..q0]·a of length k+1 comes from a prefix-suffix k of p[0..q0] with p[k] == a
+proof fn lemma_ps_ext(p: Seq<u8>, q0: int, a: u8, k: int)
+    requires 0 <= q0 <= p.len(), 0 <= k < p.len(), k <= q0
+    ensures pre_suf(p, p.subrange(0, q0).push(a), k + 1) <==> (pre_suf(p, p.subrange(0, q0), k) && p[k] == a)
+{
+    let b = p.subrange(0, q0); let w = b.push(a);
+    if pre_suf(p, b, k) && p[k] == a {
+        assert(p.subrange(0, k + 1) =~= p.subrange(0, k).push(p[k]));
+        assert(w.subrange(w.len() - (k + 1), w.len() as int) =~= b.subrange(q0 - k, q0).push(a));
+    }
+    if pre_suf(p, w, k + 1) {
+        let x = p.subrange(0, k + 1); let y = w.subrange(q0 - k, q0 + 1);
+        assert(x == y);
+        assert(x[k] == y[k]);
+        assert(p.subrange(0, k) =~= x.subrange(0, k));
+        assert(b.subrange(q0 - k, q0) =~= y.subrange(0, k));
+    }
+}
+/// prefix-suffixes of p[0..q0] are q0 itself and its borders
+proof fn lemma_ps_border(p: Seq<u8>, q0: int, k: int)
+    requires 0 <= q0 <= p.len()
+    ensures pre_suf(p, p.subrange(0, q0), k) <==> (k == q0 || border(p, q0, k))
+{
+    let b = p.subrange(0, q0);
+    if k == q0 { assert(p.subrange(0, q0) =~= b.subrange(0, q0)); }
+}
+
+impl<'a> KMP<'a> {
+    pub closed spec fn wf(&self) -> bool {
+        self.m == self.pattern@.len() && self.m >= 1 && self.lps@.len() == self.m && lps_ok(self.pattern@, self.lps@, self.m as int)
+    }
+    pub closed spec fn p(&self) -> Seq<u8> { self.pattern@ }
+
+    fn delta(&self, mut q: usize, a: u8) -> (r: usize)
+        requires self.wf(), q <= self.p().len()
+        ensures r <= self.p().len(), sigma(self.p(), self.p().subrange(0, q as int).push(a), r as int)
+    {
+        let ghost p = self.pattern@; let ghost q0 = q as int; let ghost m = self.m as int;
+        let ghost w = p.subrange(0, q0).push(a);
+        proof {
+            assert forall|k: int| k >= 1 && #[trigger] pre_suf(p, w, k) implies k - 1 <= q0 by { }
+        }
+        while q == self.m || (self.pattern[q] != a && q > 0)
+            invariant self.wf(), p == self.pattern@, m == self.m, 0 <= q <= q0 <= m, w == p.subrange(0, q0).push(a),
+                q == q0 || border(p, q0, q as int),
+                forall|k: int| k >= 1 && #[trigger] pre_suf(p, w, k) ==> k - 1 <= q,
+            decreases q
+        {
+            proof {
+                let qq = q as int; let l = self.lps@[qq - 1] as int;
+                assert(border(p, qq, l));
+                if qq < q0 { lemma_border_trans(p, q0, qq, l); }
+                assert forall|k: int| k >= 1 && #[trigger] pre_suf(p, w, k) implies k - 1 <= l by {
+                    if k - 1 > l {
+                        // k-1 <= q, and k-1 is a prefix-suffix of p[0..q0] with p[k-1] == a
+                        lemma_ps_ext(p, q0, a, k - 1);
+                        lemma_ps_border(p, q0, k - 1);
+                        if k - 1 == qq {
+                            // q == m is impossible for k <= m; otherwise p[q] != a contradicts
+                            assert(qq < m);
+                        } else {
+                            // k-1 < q: a shorter prefix-suffix of p[0..q0] is a border of p[0..q]
+                            if qq == q0 { assert(border(p, qq, k - 1)); } else { lemma_border_of_border(p, q0, qq, k - 1); }
+                        }
+                    }
+                }
+            }
+            q = self.lps[q - 1];
+        }
+        proof {
+            let qq = q as int;
+            lemma_ps_ext(p, q0, a, qq);
+            lemma_ps_border(p, q0, qq);
+            assert(pre_suf(p, w, 0)) by { assert(p.subrange(0, 0) =~= w.subrange(w.len() as int, w.len() as int)); }
+            if p[qq] != a {
+                assert forall|k: int| #[trigger] pre_suf(p, w, k) implies k <= 0 by {
+                    if k >= 1 { lemma_ps_ext(p, q0, a, k - 1); }
+                }
+            }
+        }
+        if self.pattern[q] == a {
+            q += 1;
+        }
+
+        q
+    }
+}
 }
 fn main() {}
